@@ -2,6 +2,7 @@ package gocql
 
 import (
 	"context"
+	"net"
 	"sync"
 	"time"
 )
@@ -308,4 +309,68 @@ func vh_connect_many() {
 		vAssert(len(p.conns) <= p.size, "C17/pool/never-more-than-size")
 	}
 	vObserve("added", added)
+}
+
+// ---- a connection attempt that fails leaves no socket behind ----
+//
+// Session.dialWithoutObserver: the dial may fail, the per-host AuthProvider may fail, the startup
+// handshake may fail. Whenever no *Conn is returned, the socket the dialer opened has been closed
+// (nobody else holds it: no pool's or session's Close can ever reach it).
+type vTrackAddr struct{}
+
+func (vTrackAddr) Network() string { return "tcp" }
+func (vTrackAddr) String() string  { return "10.0.0.1:9042" }
+
+type vTrackConn struct {
+	vNetConn
+}
+
+func (c *vTrackConn) RemoteAddr() net.Addr { return vTrackAddr{} }
+
+type vTrackDialer struct {
+	conn  *vTrackConn
+	fails bool
+	dials int
+}
+
+func (d *vTrackDialer) DialHost(ctx context.Context, host *HostInfo) (*DialedHost, error) {
+	d.dials++
+	if d.fails {
+		return nil, vErrIO
+	}
+	return &DialedHost{Conn: d.conn}, nil
+}
+
+func vstubSetupConn(s *startupCoordinator, ctx context.Context) error {
+	if vBool("handshake_fails") {
+		return vErrIO
+	}
+	return nil
+}
+
+func vh_dial_cleanup() {
+	d := &vTrackDialer{conn: &vTrackConn{}, fails: vBool("dial_fails")}
+	s := &Session{logger: vNopLogger{}, ctx: context.Background()}
+	cfg := &ConnConfig{ProtoVersion: 4, HostDialer: d, Logger: vNopLogger{}}
+	if vBool("auth_provider_set") {
+		providerFails := vBool("auth_provider_fails")
+		s.cfg.AuthProvider = func(h *HostInfo) (Authenticator, error) {
+			if providerFails {
+				return nil, vErrIO
+			}
+			return PasswordAuthenticator{Username: "u", Password: "p"}, nil
+		}
+		cfg.AuthProvider = s.cfg.AuthProvider
+	}
+	host := &HostInfo{hostId: "h", connectAddress: vAddrs[0], port: 9042}
+	c, err := s.dialWithoutObserver(context.Background(), host, cfg, vErrHandler{})
+	vAssert((c != nil) != (err != nil), "C17/dial/a-connection-or-an-error")
+	if err != nil {
+		vAssert(d.fails || d.conn.closed >= 1, "C17/dial/a-failed-attempt-leaves-no-socket-open")
+	} else if c != nil {
+		vAssert(d.conn.closed == 0 && c.conn == net.Conn(d.conn), "C17/dial/a-successful-attempt-owns-its-socket")
+		c.Close()
+		vAssert(d.conn.closed == 1, "C17/dial/closing-the-connection-closes-its-socket")
+	}
+	vAssert(d.dials == 1, "C17/dial/one-dial-per-attempt")
 }
